@@ -103,6 +103,9 @@ def build_scn(c):
            'types': t, 'assign': assign, 'power': {'asm': power}}
     if c.get('dz'):
         scn['setup']['axial_mesh_size'] = c['dz']
+    if c.get('dump'):
+        # csv dumps written at every plane (reporting only)
+        scn['setup']['Dump'] = {'average': True, 'gap': True, 'duct': True}
     if c.get('conv'):
         # the low-flow wall treatment switched on for every assembly
         scn['setup']['conv_approx'] = True
@@ -356,6 +359,9 @@ def cases(tier):
             out.append({'layout': lay, 'gapfrac': 0.05, 'gap_model': 'flow', 'max_steps': 40})
         for lay in (['A', 'E', 'A', 'E', 'A', 'A', 'E'], ['E', 'A', 'E', None, 'A', 'E', 'A']):
             out.append({'layout': lay, 'gapfrac': 0.05, 'gap_model': 'flow', 'max_steps': 40})
+        # dumps switched on (an observer must not change the balance)
+        for lay in (['A', 'B', 'U', 'D', 'C', 'A', 'D'], ['B', 'A', None, 'A', 'C', 'B', 'A']):
+            out.append({'layout': lay, 'gapfrac': 0.05, 'gap_model': 'flow', 'max_steps': 40, 'dump': True})
         # a requested step far below every limit: 1600 planes (the first 60 are swept)
         for lay in (['A', 'B', 'A', None, 'U', 'A', 'B'], ['D', 'A', None, None, None, None, None]):
             out.append({'layout': lay, 'gapfrac': 0.05, 'gap_model': 'flow', 'max_steps': 60, 'dz': 1.0e-4})
